@@ -639,7 +639,7 @@ def flag_pack(ctx: Ctx, rows: dict, cases: list) -> None:
     ctx.instance("C04.8/flag-pack", "instructions stacking F (pack == C | Z<<1) and unstacking F (C from bit 0, Z from bit 1 only)", n_pack + n_unpack, 9)
 
 
-def decimal_adjust(ctx: Ctx, rows: dict, cases: list) -> None:
+def decimal_adjust(ctx: Ctx, rows: dict, cases: list, rule: str = "C04.9/decimal-adjust") -> None:
     """Decimal correction: `if X > 9 then T := X + 6 else T := X` must test, adjust and pass through the *same* digit sum X."""
     n = 0
     for c in cases:
@@ -665,15 +665,23 @@ def decimal_adjust(ctx: Ctx, rows: dict, cases: list) -> None:
             if a is None or b is None or repr(a.args[1]) != repr(b.args[1]):
                 continue
             n += 1
+            # the low-digit correction is decided on the digit sum *including* the carry from the byte below (README: decimal add of
+            # the whole multi-byte operand; the Rust bcd_add_byte adds the carry before it compares): 9 + carry must be corrected
+            tt = cond.args[1]
+            if isinstance(tt, Term) and any(x.ctor == "and_expr" and ilfacts.value_of(x.args[2]) == 15 for x in ilfacts.walk(tt)) and not any(x.ctor == "logical_shift_right" for x in ilfacts.walk(tt)) \
+                    and any(x.ctor == "add" for x in ilfacts.walk(tt)) and not any(x.ctor == "flag" for x in ilfacts.walk(tt)):
+                ctx.violation(rule, key_of(isa.INSTR_PY, f"opcode 0x{c.opcode:02X} {r.cls}", "low-digit correction decided without the incoming carry"),
+                              f"opcode 0x{c.opcode:02X} ({c.name}): the low-digit decimal correction tests `{tested[:90]}` > 9, which leaves out the carry from the previous byte: digits summing to 9 with a carry in give the non-decimal digit A (0999+1 -> 0A00)",
+                              f"{isa.OPTABLE}:{r.ln}")
             adj = a.args[2]
             if not (isinstance(adj, Term) and adj.ctor == "add" and ilfacts.value_of(adj.args[2]) == 6):
                 continue
             adjusted, passed = repr(adj.args[1]), repr(b.args[2])
             if not (tested == adjusted == passed):
-                ctx.violation("C04.9/decimal-adjust", key_of(isa.INSTR_PY, f"opcode 0x{c.opcode:02X} {r.cls}", "digit sum tested != digit sum adjusted"),
+                ctx.violation(rule, key_of(isa.INSTR_PY, f"opcode 0x{c.opcode:02X} {r.cls}", "digit sum tested != digit sum adjusted"),
                               f"opcode 0x{c.opcode:02X} ({c.name}): the decimal correction tests `{tested[:90]}` > 9 but adds 6 to `{adjusted[:90]}`: a digit sum of exactly 9 plus an incoming carry is left uncorrected (or a sum below 10 is corrected)",
                               f"{isa.OPTABLE}:{r.ln}")
-    ctx.instance("C04.9/decimal-adjust", "decimal-correction diamonds (test > 9 / +6 / pass through) using one and the same digit sum", n, 4)
+    ctx.instance(rule, "decimal-correction diamonds (test > 9 / +6 / pass through) using one and the same digit sum", n, 4)
 
 
 def _loop_body(il: list) -> tuple[int, int] | None:
